@@ -174,6 +174,49 @@ impl ServerWorld {
         Ok(())
     }
 
+    /// Revoke k2 by a forced update of the device log (update_account with a
+    /// device diff that only holds the first device).
+    pub async fn revoke_k2_force(&mut self) -> Result<()> {
+        use futures::{pin_mut, StreamExt};
+        use sos_core::commit::CommitTree;
+        use sos_core::events::patch::{DeviceDiff, Patch};
+        use sos_protocol::SyncClient;
+        if self.revoked {
+            return Ok(());
+        }
+        let first = {
+            let acc = self.a.lock().await;
+            let log = acc.device_log().await?;
+            let log = log.read().await;
+            let s = log.record_stream(false).await;
+            pin_mut!(s);
+            let mut first = None;
+            if let Some(r) = s.next().await {
+                first = Some(r?);
+            }
+            first.ok_or_else(|| anyhow!("empty device log"))?
+        };
+        let mut tree = CommitTree::new();
+        tree.insert(*first.commit().as_ref());
+        tree.commit();
+        let diff = DeviceDiff::new(Patch::new(vec![first]), tree.head()?, None);
+        let update = UpdateSet { device: Some(diff), ..Default::default() };
+        let client = InProcClient {
+            device: "a".into(),
+            origin: self.origin.clone(),
+            account_id: self.a_id,
+            backend: self.backend.clone(),
+            gate: None,
+            route: Arc::new(std::sync::Mutex::new(Vec::new())),
+        };
+        client
+            .update_account(update)
+            .await
+            .map_err(|e| anyhow!("force update of the device log failed: {e}"))?;
+        self.revoked = true;
+        Ok(())
+    }
+
     pub async fn set_acl(&self, acl: &str) {
         let other = AccountId::random();
         let set = |ids: Vec<AccountId>| Some(ids.into_iter().collect::<HashSet<_>>());
@@ -351,9 +394,22 @@ impl ServerWorld {
     }
 }
 
-/// Run the cases of one file (all against one live server).
+/// Run the cases of one file: the cases in which k2 was revoked by a forced
+/// update need their own server.
 pub async fn run_cases(cases: &[Value], scratch: &Path, out: &mut Summary, known: &[String]) -> Result<()> {
-    let dir = scratch.join("srv");
+    let by_force: Vec<Value> = cases.iter().filter(|c| c["revokedBy"] == "force").cloned().collect();
+    let others: Vec<Value> = cases.iter().filter(|c| c["revokedBy"] != "force").cloned().collect();
+    if !others.is_empty() {
+        run_world(&others, scratch, out, known, false).await?;
+    }
+    if !by_force.is_empty() {
+        run_world(&by_force, scratch, out, known, true).await?;
+    }
+    Ok(())
+}
+
+async fn run_world(cases: &[Value], scratch: &Path, out: &mut Summary, known: &[String], force: bool) -> Result<()> {
+    let dir = scratch.join(if force { "srv_force" } else { "srv" });
     let _ = std::fs::remove_dir_all(&dir);
     std::fs::create_dir_all(&dir)?;
     let mut world = ServerWorld::new(&dir).await?;
@@ -366,7 +422,11 @@ pub async fn run_cases(cases: &[Value], scratch: &Path, out: &mut Summary, known
         if !two && !world.revoked {
             world.set_acl("none").await;
             acl_now.clear();
-            world.revoke_k2().await?;
+            if force {
+                world.revoke_k2_force().await?;
+            } else {
+                world.revoke_k2().await?;
+            }
         }
         let acl = case["acl"].as_str().unwrap_or("none");
         if acl != acl_now {
@@ -401,7 +461,8 @@ pub async fn run_cases(cases: &[Value], scratch: &Path, out: &mut Summary, known
         out.steps += 1;
         let after = world.server_state().await?;
         let refused = matches!(status, 400 | 401 | 403);
-        let key = format!("{acl}|{}|{method} {route}|{cred}", if two { "2dev" } else { "revoked" });
+        let phase = if two { "2dev".to_string() } else { format!("revoked-by-{}", case["revokedBy"].as_str().unwrap_or("?")) };
+        let key = format!("{acl}|{phase}|{method} {route}|{cred}");
         out.nontrivial_keys.push(key.clone());
         if expect == "refused" {
             if !refused {
@@ -410,8 +471,7 @@ pub async fn run_cases(cases: &[Value], scratch: &Path, out: &mut Summary, known
                     out.known(dev, format!("{method} {route} answered {status} for an account on the deny list"));
                 } else {
                     out.violation(
-                        format!("{method} {route} with credential '{cred}' (acl {acl}, {}) was not refused: status {status}",
-                            if two { "both devices trusted" } else { "k2 revoked" }),
+                        format!("{method} {route} with credential '{cred}' (acl {acl}, {phase}) was not refused: status {status}"),
                         json!({"case": case, "status": status}),
                     );
                 }
@@ -424,7 +484,7 @@ pub async fn run_cases(cases: &[Value], scratch: &Path, out: &mut Summary, known
             }
         } else if matches!(status, 401 | 403) || status >= 500 {
             out.violation(
-                format!("{method} {route} with credential '{cred}' (acl {acl}) should pass authorisation but got {status}"),
+                format!("{method} {route} with credential '{cred}' (acl {acl}, {phase}) should pass authorisation but got {status}"),
                 json!({"case": case, "status": status}),
             );
         }
@@ -433,8 +493,8 @@ pub async fn run_cases(cases: &[Value], scratch: &Path, out: &mut Summary, known
         }
     }
     // the server keeps serving
-    let alive = world.send(("/api/v1/sync/account/status", "GET"), "valid").await;
     world.set_acl("none").await;
+    let alive = world.send(("/api/v1/sync/account/status", "GET"), "valid").await;
     match alive {
         Ok(_) => {}
         Err(e) => out.violation(format!("the server stopped answering: {e}"), json!({})),
